@@ -11,6 +11,7 @@ from symex import strip, show, is_call, field_path, mentions, decision_variant, 
 from xpand import run as xrun
 import facts as factsmod
 
+DEBUG_KINDS = {'copy', 'owned', 'ref', 'str', 'slice', 'mutref', 'mutslice', 'optref', 'generic', 'mutref_named', 'tgen'}      # (grammar kinds whose type implements Debug)
 _PNAME = re.compile(r'^(?:_ref__)?p(\d+)$')
 _HYGIENE = {n: i for i, n in enumerate(['output', 'cont', 'inputs', 'eval', 'value'])}     # (xpand/gen.py HYGIENE_NAMES: parameters named like the expansion's own bindings)
 
@@ -744,6 +745,12 @@ def _check_debug_inputs(chk, F, info_fn, m, where, site):
                 if n == 1 and x in (('param', 0, 1), ('deref', ('param', 0, 1))):
                     idxs.add(0)
             src.append(sorted(idxs))
+        # every argument of a type that implements Debug is rendered through it (the `?` fallback is for types without Debug only)
+        for k_, (v, pm) in enumerate(zip(elems, m['params'])):
+            if pm.get('kind') in DEBUG_KINDS:
+                proper = mentions(v, lambda x: is_call(x, r'ProperDebug>?::unimock_try_debug$'))
+                chk.ob('R19.3', '%s: argument %d (%s) implements Debug and is rendered through it' % (where, k_, pm.get('ty')), proper, config=cfg, fn=g, site=site + ':debug_inputs:debug%d' % k_,
+                       what='argument %d of a Debug type is rendered as `?`' % k_, found=[e_.data[1] for e_ in p.calls() if 'unimock_try_debug' in e_.data[1]][:4], expected='<T as ProperDebug>::unimock_try_debug')
         want = [[k] for k in range(n)]
         ok = len(elems) == n and src == want
         chk.ob('R19.3', '%s: argument renderings are listed in declaration order, element i from argument i' % where, ok, config=cfg, fn=g, site=site + ':debug_inputs', what='debug_inputs sources %s' % src, found=src, expected=want)
